@@ -570,6 +570,29 @@ func (m *concModel) muCall(in ssa.Instruction) (name string, deferred bool) {
 	return "other-mutex", deferred
 }
 
+// deferReleases: a defer statement that releases the tree lock, directly or in a function literal.
+func (m *concModel) deferReleases(in ssa.Instruction) bool {
+	d, ok := in.(*ssa.Defer)
+	if !ok {
+		return false
+	}
+	if name, _ := m.muCall(in); name == "RUnlock" || name == "Unlock" {
+		return true
+	}
+	if mc, ok := d.Call.Value.(*ssa.MakeClosure); ok {
+		if lit, ok := mc.Fn.(*ssa.Function); ok {
+			for _, b := range lit.Blocks {
+				for _, x := range b.Instrs {
+					if name, _ := m.muCall(x); name == "RUnlock" || name == "Unlock" {
+						return true
+					}
+				}
+			}
+		}
+	}
+	return false
+}
+
 type lockAccess struct {
 	f    *ssa.Function
 	need int
@@ -591,6 +614,7 @@ func (m *concModel) lockset(c *core.Ctx) (acc []lockAccess, problems []lockAcces
 		acc, problems = nil, nil
 		for _, f := range m.fs {
 			in := map[*ssa.BasicBlock]int{f.Blocks[0]: 0}
+			inRel := map[*ssa.BasicBlock]bool{} // a deferred release has been registered on the way to this block
 			done := map[*ssa.BasicBlock]bool{}
 			work := []*ssa.BasicBlock{f.Blocks[0]}
 			need := 0
@@ -603,7 +627,19 @@ func (m *concModel) lockset(c *core.Ctx) (acc []lockAccess, problems []lockAcces
 				}
 				done[b] = true
 				cur := in[b]
+				rel := inRel[b]
 				for _, ins := range b.Instrs {
+					if m.deferReleases(ins) {
+						rel = true
+					}
+					// leaving the function: what was acquired has been released, or a deferred release is pending
+					if _, isRet := ins.(*ssa.Return); isRet && cur != 0 && !rel {
+						key := "held at return"
+						if !exportedAPI(f) {
+							key = "join" // a helper that hands the lock to its caller: not modelled
+						}
+						problems = append(problems, lockAccess{f: f, what: "returns with the tree lock held and no deferred release pending: the next Extend (or, after a write lock, any detection) blocks forever", pos: ins.Pos(), key: key})
+					}
 					if name, deferred := m.muCall(ins); name != "" {
 						switch {
 						case name == "other-mutex":
@@ -663,6 +699,7 @@ func (m *concModel) lockset(c *core.Ctx) (acc []lockAccess, problems []lockAcces
 						}
 					} else {
 						in[s] = cur
+						inRel[s] = rel
 					}
 					work = append(work, s)
 				}
